@@ -711,6 +711,88 @@ func recordC10(env *Env) {
 		}(g)
 	}
 	wg.Wait()
+	recordC10SharedPredicate(env)
+}
+
+// recordC10SharedPredicate: obigrep builds ONE predicate per pattern and all its workers call it.  A predicate is
+// asked about 24 sequences one after the other, then by 8 goroutines at once; an answer that differs from the
+// sequential one is logged as the event of that (pattern, sequence) with the deviating answer in it.
+func recordC10SharedPredicate(env *Env) {
+	rng := rand.New(rand.NewSource(env.seed*7717 + 5))
+	pool := newSeqPool(rng, 4)
+	for round := 0; round < env.optInt("sharedpredicates", 6); round++ {
+		plen := 8 + rng.Intn(12)
+		syms := genPattern(rng, plen, genOpts{pure: true, ambig: 10})
+		pt := patText(syms)
+		e := rng.Intn(3)
+		indel := rng.Intn(2)
+		both := rng.Intn(2) == 0
+		seqs := make([]string, 24)
+		for k := range seqs {
+			body := randSeq(rng, 30+rng.Intn(200), 0)
+			if k%2 == 0 { // half of them hold an occurrence within the budget
+				pos := rng.Intn(len(body))
+				body = append(append(append([]byte{}, body[:pos]...), instance(rng, syms, rng.Intn(e+1), 0)...), body[pos:]...)
+			}
+			seqs[k] = string(body)
+		}
+		var pred func(*obiseq.BioSequence) bool
+		if p, _ := guard(func() { pred = obiapat.IsPatternMatchSequence(pt, e, both, indel == 1) }); p != 0 || pred == nil {
+			continue
+		}
+		ask := func(k int) (r int) {
+			defer func() {
+				if recover() != nil {
+					r = 2
+				}
+			}()
+			if pred(obiseq.NewBioSequence("verif", []byte(seqs[k]), "")) {
+				return 1
+			}
+			return 0
+		}
+		seqAns := make([]int, len(seqs))
+		for k := range seqs {
+			seqAns[k] = ask(k)
+		}
+		var mu sync.Mutex
+		deviating := map[int]int{}
+		var wg sync.WaitGroup
+		for g := 0; g < 8; g++ {
+			wg.Add(1)
+			go func(g int) {
+				defer wg.Done()
+				for n := 0; n < 60*len(seqs); n++ {
+					k := (n*7 + g*5) % len(seqs)
+					if a := ask(k); a != seqAns[k] {
+						mu.Lock()
+						deviating[k] = a
+						mu.Unlock()
+					}
+				}
+			}(g)
+		}
+		wg.Wait()
+		emitOne := func(k, ans int, cls string) {
+			ev := runScenario(pt, seqs[k], e, indel, 0, -1, pool, k)
+			if both {
+				ev.PredBoth, ev.Pred = ans, -1
+			} else {
+				ev.Pred, ev.PredBoth = ans, -1
+			}
+			ev.Src = "T"
+			ev.Cls = fmt.Sprintf("%s/%s/e%d/plain/full/%s", lenClassName(plen), map[int]string{0: "sub", 1: "indel"}[indel], e, cls)
+			env.emit(ev)
+		}
+		emitOne(0, seqAns[0], "sharedpredicate") // one sequential answer per predicate (the class is always exercised)
+		n := 0
+		for k, a := range deviating {
+			if n < 5 {
+				emitOne(k, a, "sharedpredicate-concurrent")
+			}
+			n++
+		}
+	}
 }
 
 func recordC10Part(env *Env, rng *rand.Rand, count int, part int) {
